@@ -139,7 +139,9 @@ func checkC18(c *C18Case) *Violation {
 	if r.Err == nil {
 		lbl = "accepted"
 	}
-	st.Eval(c.Src+fmt.Sprint(c.Flags), nt, func() any { return map[string]any{"src": clip(c.Src, 300), "flags": c.Flags, "result": clip(r.Describe(), 120)} }, lbl)
+	st.Eval(c.Src+fmt.Sprint(c.Flags), nt, func() any {
+		return map[string]any{"src": clip(c.Src, 300), "flags": c.Flags, "result": clip(r.Describe(), 120)}
+	}, lbl)
 	return nil
 }
 
